@@ -915,6 +915,11 @@ theorem opCovered_neutral_right {a b : List Act} (ha : opCovered a = true) (h : 
     opCovered (a ++ b) = true :=
   opCovered_append_both ha (opCovered_noOp h)
 
+theorem interleave_map_single {β : Type} (f : β → α) (l : List β) :
+    interleave (l.map fun p => [f p]) = l.map f := by
+  have := interleave_singletons (l.map f)
+  simpa [List.map_map, Function.comp_def] using this
+
 /-- `to_operational(SAFE_OPERATIONAL)` never requests OPERATIONAL, whatever state the terminal starts in
 (checked against the regenerated declaration order of `MachineState`) -/
 theorem toOp_noOp (t : Term) : ∀ x ∈ toOp t, opOf x = none := by
@@ -930,8 +935,13 @@ theorem toOp_noOp (t : Term) : ∀ x ∈ toOp t, opOf x = none := by
     · subst h8; simp [Ebv.AlDriver.after, msOrder, toOpSteps, opOf, ms_SAFE_OPERATIONAL, ms_OPERATIONAL]
     by_cases h3 : s = 3
     · subst h3; simp [Ebv.AlDriver.after, msOrder, toOpSteps, opOf, ms_SAFE_OPERATIONAL, ms_OPERATIONAL]
+    have b1 : (1 != s) = true := by simp only [bne_iff_ne, ne_eq]; omega
+    have b2 : (2 != s) = true := by simp only [bne_iff_ne, ne_eq]; omega
+    have b4 : (4 != s) = true := by simp only [bne_iff_ne, ne_eq]; omega
+    have b8 : (8 != s) = true := by simp only [bne_iff_ne, ne_eq]; omega
+    have b3 : (3 != s) = true := by simp only [bne_iff_ne, ne_eq]; omega
     have e : Ebv.AlDriver.after s = [] := by
-      simp [Ebv.AlDriver.after, msOrder, List.dropWhile, Ne.symm h1, Ne.symm h2, Ne.symm h4, Ne.symm h8, Ne.symm h3]
+      simp [Ebv.AlDriver.after, msOrder, List.dropWhile, b1, b2, b4, b8, b3]
     simp [e, toOpSteps]
   intro x hx
   simp only [toOp, List.mem_cons] at hx
@@ -970,8 +980,496 @@ theorem tryFin_trace (k : Option Nat) (ts : List Term) (n j : Nat)
         (run k (opBody ts n) j).idx + ((rwOf ts).map fun p => Act.setState p ms_SAFE_OPERATIONAL).length⟩ := by
     rw [past_eq hk _ hm]
     simp only [safeFin, run]
-    rw [← List.map_map (g := fun a => [a]) (f := fun p => Act.setState p ms_SAFE_OPERATIONAL)] 
-    rw [interleave_singletons, runAwaits_none]
+    rw [interleave_map_single, runAwaits_none]
   simp only [run, Res.finallyDo, hnp, ↓reduceIte, hfin]
+
+theorem opBody_ops (k : Option Nat) (ts : List Term) (n j t : Nat)
+    (h : Act.setState t ms_OPERATIONAL ∈ (run k (opBody ts n) j).trace) : t ∈ rwOf ts := by
+  have := trace_sub_acts k (opBody ts n) j _ h
+  simp only [opBody, cycle, acts, List.mem_append, List.mem_flatten, List.mem_map] at this
+  rcases this with ⟨c, ⟨p, hp, rfl⟩, hx⟩ | hx
+  · simp only [List.mem_singleton, Act.setState.injEq] at hx
+    rw [hx.1]; exact hp
+  · simp at hx
+
+theorem safeList_noOp (l : List Nat) : ∀ x ∈ l.map (fun p => Act.setState p ms_SAFE_OPERATIONAL), opOf x = none := by
+  intro x hx
+  obtain ⟨p, _, rfl⟩ := List.mem_map.1 hx
+  simp [opOf, safe_ne_op]
+
+/-- the part of `SyncGroupBase.run` inside `async with self.map_fmmu()` -/
+theorem slowCore_op (k : Option Nat) (ts : List Term) (n i : Nat)
+    (hp : (run k (slowCore ts n) i).out ≠ .pending) : opCovered (run k (slowCore ts n) i).trace = true := by
+  have e : run k (slowCore ts n) i = (runAwaits k (interleave (ts.map toOp)) i).andThen fun j =>
+      Res.andThen ⟨[.send], .normal, j⟩ fun j => run k (.tryFinally (opBody ts n) (safeFin ts)) j := rfl
+  rw [e] at hp ⊢
+  have hG : ∀ x ∈ (runAwaits k (interleave (ts.map toOp)) i).trace, opOf x = none := by
+    intro x hx
+    obtain ⟨c, hc, hxc⟩ := interleave_sub _ x (runAwaits_sub _ _ _ x hx)
+    obtain ⟨t, _, rfl⟩ := List.mem_map.1 hc
+    exact toOp_noOp t x hxc
+  generalize runAwaits k (interleave (ts.map toOp)) i = G at hp hG ⊢
+  by_cases hn : G.out = .normal
+  · simp only [Res.andThen, hn, ↓reduceIte] at hp ⊢
+    rw [tryFin_trace k ts n _ hp, opCovered_neutral_left hG]
+    have hs : ∀ x ∈ [Act.send], opOf x = none := by simp [opOf]
+    rw [opCovered_neutral_left hs]
+    apply opCovered_append (opCovered_noOp (safeList_noOp _))
+    intro t ht
+    exact List.mem_map.2 ⟨t, opBody_ops k ts n _ t ht, rfl⟩
+  · simp only [Res.andThen, hn, ↓reduceIte]
+    exact opCovered_noOp hG
+
+/-- wrapping a body into FMMU mappings adds no AL-state requests -/
+theorem mapFmmu_op (body : Coro Act)
+    (hb : ∀ k i, (run k body i).out ≠ .pending → opCovered (run k body i).trace = true)
+    (ms : List (Nat × Nat)) (k : Option Nat) (i : Nat)
+    (hp : (run k (mapFmmu ms body) i).out ≠ .pending) : opCovered (run k (mapFmmu ms body) i).trace = true := by
+  induction ms generalizing i with
+  | nil => exact hb k i hp
+  | cons m ms ih =>
+    obtain ⟨t, j⟩ := m
+    simp only [mapFmmu] at hp ⊢
+    rcases mapOne_shape k t j (mapFmmu ms body) i _ rfl with ⟨h1, _⟩ | ⟨_, h2, _⟩ | ⟨mid, hm, h1, _, h3⟩
+    · rw [h1]; simp [opCovered, opOf]
+    · exact absurd h2 hp
+    · rw [h1]
+      have pre : ∀ x ∈ [Act.slot t j true, Act.fmmuOn t j], opOf x = none := by simp [opOf]
+      have post : ∀ x ∈ mid ++ [Act.slot t j false], opOf x = none := by
+        rcases hm with rfl | rfl <;> simp [opOf]
+      rw [List.append_assoc, List.append_assoc, opCovered_neutral_left pre]
+      exact opCovered_neutral_right (ih _ h3) post
+
+/-- **OPERATIONAL implies SAFE-OPERATIONAL (slow group)**: whenever the task is over, every
+`set_state(OPERATIONAL)` in the trace is followed by a `set_state(SAFE_OPERATIONAL)` of the same terminal -/
+theorem slowRun_op (k : Option Nat) (ts : List Term) (n i : Nat)
+    (hp : (run k (slowRun ts n) i).out ≠ .pending) : opCovered (run k (slowRun ts n) i).trace = true :=
+  mapFmmu_op _ (fun k i => slowCore_op k ts n i) _ k i hp
+
+theorem op_implies_safeop_slow (k : Option Nat) (ts : List Term) (n : Nat)
+    (hp : (runCancel k (slowRun ts n)).2 ≠ .pending) (pre : List Act) (t : Nat) (post : List Act)
+    (e : (runCancel k (slowRun ts n)).1 = pre ++ .setState t ms_OPERATIONAL :: post) :
+    .setState t ms_SAFE_OPERATIONAL ∈ post :=
+  opCovered_spec _ (slowRun_op k ts n 0 hp) pre t post e
+
+/-! ### tables replayed from the trace: FMMU slots, program table, sync_groups -/
+
+/-- replay of one table write: `some (key, true)` inserts, `some (key, false)` removes -/
+def tabStep {κ : Type} [BEq κ] (cls : Act → Option (κ × Bool)) (T : List κ) (a : Act) : List κ :=
+  match cls a with
+  | some (x, true) => x :: T
+  | some (x, false) => T.filter (· != x)
+  | none => T
+
+/-- the table after replaying the trace from table `T` -/
+def tabAfter {κ : Type} [BEq κ] (cls : Act → Option (κ × Bool)) (tr : List Act) (T : List κ) : List κ :=
+  tr.foldl (tabStep cls) T
+
+def slotCls : Act → Option ((Nat × Nat) × Bool)
+  | .slot t j b => some ((t, j), b)
+  | _ => none
+def progCls : Act → Option (Nat × Bool)
+  | .progSet i => some (i, true)
+  | .progDel i => some (i, false)
+  | _ => none
+def groupCls : Act → Option (Nat × Bool)
+  | .groupSet i => some (i, true)
+  | .groupDel i => some (i, false)
+  | _ => none
+
+section tab
+variable {κ : Type} [BEq κ] (cls : Act → Option (κ × Bool))
+
+theorem tabAfter_append (a b : List Act) (T : List κ) :
+    tabAfter cls (a ++ b) T = tabAfter cls b (tabAfter cls a T) := by
+  simp [tabAfter, List.foldl_append]
+
+theorem tabAfter_neutral {tr : List Act} (h : ∀ x ∈ tr, cls x = none) (T : List κ) : tabAfter cls tr T = T := by
+  induction tr generalizing T with
+  | nil => rfl
+  | cons x tr ih =>
+    simp only [tabAfter, List.foldl_cons, tabStep, h x (by simp)]
+    exact ih (fun y hy => h y (by simp [hy])) T
+
+/-- the replay only removes keys from `T` -/
+def Shrinks (tr : List Act) : Prop := ∀ T : List κ, ∃ p : κ → Bool, tabAfter cls tr T = T.filter p
+
+theorem shrinks_neutral {tr : List Act} (h : ∀ x ∈ tr, cls x = none) : Shrinks cls tr :=
+  fun T => ⟨fun _ => true, by
+    rw [tabAfter_neutral cls h]; exact (List.filter_eq_self.2 fun _ _ => rfl).symm⟩
+
+theorem shrinks_append {a b : List Act} (ha : Shrinks cls a) (hb : Shrinks cls b) : Shrinks cls (a ++ b) := by
+  intro T
+  obtain ⟨p, hp⟩ := ha T
+  obtain ⟨q, hq⟩ := hb (T.filter p)
+  refine ⟨fun x => p x && q x, ?_⟩
+  rw [tabAfter_append, hp, hq, List.filter_filter]
+  congr 1; funext x; exact Bool.and_comm _ _
+
+/-- insert `x`, run something that only removes, remove `x`: only removes -/
+theorem shrinks_bracket [LawfulBEq κ] {s c : Act} {x : κ} {mid : List Act} (hs : cls s = some (x, true)) (hc : cls c = some (x, false))
+    (hm : Shrinks cls mid) : Shrinks cls (s :: (mid ++ [c])) := by
+  intro T
+  obtain ⟨p, hp⟩ := hm (x :: T)
+  refine ⟨fun y => p y && (y != x), ?_⟩
+  have e1 : tabAfter cls (s :: (mid ++ [c])) T = tabAfter cls [c] (tabAfter cls mid (x :: T)) := by
+    rw [← tabAfter_append]
+    simp [tabAfter, tabStep, hs]
+  rw [e1, hp]
+  simp only [tabAfter, List.foldl_cons, List.foldl_nil, tabStep, hc, List.filter_filter]
+  rw [List.filter_cons]
+  by_cases hx : p x = true
+  · simp [hx, Bool.and_comm]
+  · simp [hx, Bool.and_comm]
+
+theorem shrinks_empty {tr : List Act} (h : Shrinks cls tr) : tabAfter cls tr [] = [] := by
+  obtain ⟨p, hp⟩ := h []
+  simpa using hp
+end tab
+
+/-- bus traffic of the cycle: AL state accesses and the process-data frame -/
+def busAct : Act → Bool
+  | .getState _ | .setState .. | .send | .recv | .sleep => true
+  | _ => false
+
+theorem toOpSteps_bus (t target : Nat) (todo : List Nat) (s : Nat) : ∀ x ∈ toOpSteps t target todo s, busAct x = true := by
+  induction todo generalizing s with
+  | nil => simp [toOpSteps]
+  | cons c todo ih =>
+    unfold toOpSteps
+    split
+    · simp
+    · intro x hx
+      simp only [List.mem_cons] at hx
+      rcases hx with rfl | rfl | hx
+      · rfl
+      · rfl
+      · exact ih _ x hx
+
+theorem slowCore_bus (ts : List Term) (n : Nat) : ∀ x ∈ acts (slowCore ts n), busAct x = true := by
+  intro x hx
+  simp only [slowCore, opBody, safeFin, cycle, acts, List.mem_append, List.mem_flatten, List.mem_map] at hx
+  rcases hx with ⟨c, ⟨t, _, rfl⟩, hx⟩ | hx | (⟨c, ⟨p, _, rfl⟩, hx⟩ | hx) | ⟨c, ⟨p, _, rfl⟩, hx⟩
+  · simp only [toOp, List.mem_cons] at hx
+    rcases hx with rfl | hx
+    · rfl
+    · exact toOpSteps_bus _ _ _ _ x hx
+  · simp only [List.mem_singleton] at hx; subst hx; rfl
+  · simp only [List.mem_singleton] at hx; subst hx; rfl
+  · simp only [List.mem_cons, List.not_mem_nil, or_false] at hx
+    rcases hx with rfl | rfl | rfl <;> rfl
+  · simp only [List.mem_singleton] at hx; subst hx; rfl
+
+theorem bus_slot {x : Act} (h : busAct x = true) : slotCls x = none := by cases x <;> simp_all [busAct, slotCls]
+theorem bus_prog {x : Act} (h : busAct x = true) : progCls x = none := by cases x <;> simp_all [busAct, progCls]
+theorem bus_group {x : Act} (h : busAct x = true) : groupCls x = none := by cases x <;> simp_all [busAct, groupCls]
+
+/-- FMMU mappings around a body that does not touch the slot table: whenever the run is over,
+the slot-table writes only removed entries -/
+theorem mapFmmu_shrinks (body : Coro Act) (hb : ∀ k i, ∀ x ∈ (run k body i).trace, slotCls x = none)
+    (ms : List (Nat × Nat)) (k : Option Nat) (i : Nat)
+    (hp : (run k (mapFmmu ms body) i).out ≠ .pending) : Shrinks slotCls (run k (mapFmmu ms body) i).trace := by
+  induction ms generalizing i with
+  | nil => exact shrinks_neutral slotCls (hb k i)
+  | cons m ms ih =>
+    obtain ⟨t, j⟩ := m
+    simp only [mapFmmu] at hp ⊢
+    rcases mapOne_shape k t j (mapFmmu ms body) i _ rfl with ⟨h1, _⟩ | ⟨_, h2, _⟩ | ⟨mid, hm, h1, _, h3⟩
+    · rw [h1]
+      exact shrinks_bracket slotCls (x := (t, j)) (mid := [.fmmuOn t j]) rfl rfl
+        (shrinks_neutral slotCls (by simp [slotCls]))
+    · exact absurd h2 hp
+    · rw [h1]
+      have e : [Act.slot t j true, Act.fmmuOn t j] ++ (run k (mapFmmu ms body) (i + 1)).trace ++ mid ++ [Act.slot t j false]
+          = Act.slot t j true :: (([Act.fmmuOn t j] ++ ((run k (mapFmmu ms body) (i + 1)).trace ++ mid)) ++ [Act.slot t j false]) := by
+        simp
+      rw [e]
+      refine shrinks_bracket slotCls (x := (t, j)) rfl rfl ?_
+      refine shrinks_append slotCls (shrinks_neutral slotCls (by simp [slotCls])) ?_
+      refine shrinks_append slotCls (ih _ h3) (shrinks_neutral slotCls ?_)
+      rcases hm with rfl | rfl <;> simp [slotCls]
+
+theorem slowRun_shrinks (k : Option Nat) (ts : List Term) (n i : Nat)
+    (hp : (run k (slowRun ts n) i).out ≠ .pending) : Shrinks slotCls (run k (slowRun ts n) i).trace :=
+  mapFmmu_shrinks _ (fun k i x hx => bus_slot (slowCore_bus ts n x (trace_sub_acts k _ i x hx))) _ k i hp
+
+/-- **FMMUs freed (slow group)**: whenever the task is over, replaying the slot-table writes of the
+trace (`fmmu_used[i] = logical` / `= None`) from the empty table gives the empty table -/
+theorem fmmu_freed_slow (k : Option Nat) (ts : List Term) (n : Nat)
+    (hp : (runCancel k (slowRun ts n)).2 ≠ .pending) :
+    tabAfter slotCls (runCancel k (slowRun ts n)).1 [] = [] :=
+  shrinks_empty slotCls (slowRun_shrinks k ts n 0 hp)
+
+/-! ### the fast group: `register_sync_group` around the slow run -/
+
+theorem run_lookups (k : Option Nat) (busy : List Nat) (index i : Nat) :
+    run k (lookups busy index) i = ⟨busy.map .lookup ++ [.lookup index], .normal, i⟩ := by
+  induction busy with
+  | nil => rfl
+  | cons b busy ih =>
+    have e : lookups (b :: busy) index = .seq (.act (.lookup b)) (lookups busy index) := rfl
+    rw [e]; simp [run, Res.andThen, ih]
+
+/-- the body of the `with` block: two priming sends, then `SyncGroupBase.run` -/
+theorem fastBody_shape (k : Option Nat) (ts : List Term) (n i : Nat) (rs : Res Act)
+    (hrs : run k (slowRun ts n) (i + 2) = rs) :
+    ((run k (fastBody ts n) i).trace = [.send, .sleep] ∧ (run k (fastBody ts n) i).out = .raised .cancelled) ∨
+    ((run k (fastBody ts n) i).trace = [.send, .sleep, .send, .sleep] ∧
+      (run k (fastBody ts n) i).out = .raised .cancelled) ∨
+    ((run k (fastBody ts n) i).trace = [.send, .sleep, .send, .sleep] ++ rs.trace ∧
+      (run k (fastBody ts n) i).out = rs.out) := by
+  by_cases h0 : k = some i
+  · left; simp [fastBody, run, runAwaits, Res.andThen, h0]
+  · right
+    by_cases h1 : k = some (i + 1)
+    · left; simp [fastBody, run, runAwaits, Res.andThen, h1]
+    · right
+      have e : run k (fastBody ts n) i = ⟨[.send, .sleep, .send, .sleep] ++ rs.trace, rs.out, rs.idx⟩ := by
+        simp [fastBody, run, runAwaits, Res.andThen, h0, h1, hrs]
+      rw [e]; exact ⟨rfl, rfl⟩
+
+def fastPre (busy : List Nat) (index : Nat) : List Act :=
+  .load :: (busy.map .lookup ++ [.lookup index])
+
+theorem fastRun_shape (k : Option Nat) (busy : List Nat) (index : Nat) (ts : List Term) (n i : Nat) (rb : Res Act)
+    (hrb : run k (fastBody ts n) i = rb) :
+    (run k (fastRun busy index ts n) i).out = rb.out ∧
+    (run k (fastRun busy index ts n) i).trace =
+      fastPre busy index ++ [.progSet index, .closeFd, .groupSet index] ++ rb.trace ++
+        (if rb.out = .pending then [] else [.progDel index, .groupDel index]) := by
+  have e : run k (fastRun busy index ts n) i =
+      ⟨fastPre busy index ++ [.progSet index, .closeFd, .groupSet index] ++
+        ((rb.exitOk fun j => ⟨[], .normal, j⟩).finallyDo fun j => ⟨[.progDel index, .groupDel index], .normal, j⟩).trace,
+       ((rb.exitOk fun j => ⟨[], .normal, j⟩).finallyDo fun j => ⟨[.progDel index, .groupDel index], .normal, j⟩).out,
+       ((rb.exitOk fun j => ⟨[], .normal, j⟩).finallyDo fun j => ⟨[.progDel index, .groupDel index], .normal, j⟩).idx⟩ := by
+    simp [fastRun, fastPre, run, run_lookups, Res.andThen, hrb]
+  rw [e]
+  clear e hrb
+  by_cases hp : rb.out = .pending
+  · simp [Res.exitOk, Res.finallyDo, hp]
+  · by_cases hn : rb.out = .normal ∨ rb.out = .returned
+    · rcases hn with hn | hn <;> simp [Res.exitOk, Res.finallyDo, hn]
+    · simp [Res.exitOk, Res.finallyDo, hn, hp]
+
+theorem mapFmmu_acts (P : Act → Prop) (hs : ∀ t j b, P (.slot t j b)) (hon : ∀ t j, P (.fmmuOn t j))
+    (hoff : ∀ t j, P (.fmmuOff t j)) (body : Coro Act) (hb : ∀ x ∈ acts body, P x) (ms : List (Nat × Nat)) :
+    ∀ x ∈ acts (mapFmmu ms body), P x := by
+  induction ms with
+  | nil => exact hb
+  | cons m ms ih =>
+    obtain ⟨t, j⟩ := m
+    intro x hx
+    simp only [mapFmmu, mapOne, acts, List.mem_append, List.mem_singleton] at hx
+    rcases hx with rfl | ((rfl | rfl) | rfl) | hx
+    · exact hs _ _ _
+    · exact hon _ _
+    · exact hoff _ _
+    · exact hs _ _ _
+    · exact ih x hx
+
+theorem fastBody_tables (k : Option Nat) (ts : List Term) (n i : Nat) :
+    ∀ x ∈ (run k (fastBody ts n) i).trace, progCls x = none ∧ groupCls x = none := by
+  intro x hx
+  have hx := trace_sub_acts k _ i x hx
+  simp only [fastBody, acts, List.mem_append, List.mem_singleton] at hx
+  rcases hx with rfl | rfl | rfl | rfl | hx
+  · exact ⟨rfl, rfl⟩
+  · exact ⟨rfl, rfl⟩
+  · exact ⟨rfl, rfl⟩
+  · exact ⟨rfl, rfl⟩
+  · exact mapFmmu_acts (fun x => progCls x = none ∧ groupCls x = none) (fun _ _ _ => ⟨rfl, rfl⟩)
+      (fun _ _ => ⟨rfl, rfl⟩) (fun _ _ => ⟨rfl, rfl⟩) _
+      (fun y hy => ⟨bus_prog (slowCore_bus ts n y hy), bus_group (slowCore_bus ts n y hy)⟩) _ x hx
+
+theorem fastBody_op (k : Option Nat) (ts : List Term) (n i : Nat) (hp : (run k (fastBody ts n) i).out ≠ .pending) :
+    opCovered (run k (fastBody ts n) i).trace = true ∧ Shrinks slotCls (run k (fastBody ts n) i).trace := by
+  rcases fastBody_shape k ts n i _ rfl with ⟨h1, _⟩ | ⟨h1, _⟩ | ⟨h1, h2⟩
+  · rw [h1]; exact ⟨by simp [opCovered, opOf], shrinks_neutral slotCls (by simp [slotCls])⟩
+  · rw [h1]; exact ⟨by simp [opCovered, opOf], shrinks_neutral slotCls (by simp [slotCls])⟩
+  · rw [h2] at hp
+    rw [h1]
+    have pre : ∀ x ∈ [Act.send, Act.sleep, Act.send, Act.sleep], opOf x = none := by simp [opOf]
+    refine ⟨?_, shrinks_append slotCls (shrinks_neutral slotCls (by simp [slotCls])) (slowRun_shrinks k ts n _ hp)⟩
+    rw [opCovered_neutral_left pre]
+    exact slowRun_op k ts n _ hp
+
+/-- the trace of a finished fast group: registration, the body, unregistration -/
+theorem fastRun_trace (k : Option Nat) (busy : List Nat) (index : Nat) (ts : List Term) (n i : Nat)
+    (hp : (run k (fastRun busy index ts n) i).out ≠ .pending) :
+    (run k (fastRun busy index ts n) i).trace =
+      fastPre busy index ++ [.progSet index, .closeFd, .groupSet index] ++ (run k (fastBody ts n) i).trace ++
+        [.progDel index, .groupDel index] ∧ (run k (fastBody ts n) i).out ≠ .pending := by
+  obtain ⟨h1, h2⟩ := fastRun_shape k busy index ts n i _ rfl
+  rw [h1] at hp
+  rw [h2]; simp [hp]
+
+theorem fastPre_neutral (busy : List Nat) (index : Nat) :
+    ∀ x ∈ fastPre busy index, opOf x = none ∧ slotCls x = none ∧ progCls x = none ∧ groupCls x = none := by
+  intro x hx
+  simp only [fastPre, List.mem_cons, List.mem_append, List.mem_map, List.not_mem_nil, or_false] at hx
+  rcases hx with rfl | ⟨b, _, rfl⟩ | rfl <;> exact ⟨rfl, rfl, rfl, rfl⟩
+
+/-- **OPERATIONAL implies SAFE-OPERATIONAL (fast group)** -/
+theorem op_implies_safeop_fast (k : Option Nat) (busy : List Nat) (index : Nat) (ts : List Term) (n : Nat)
+    (hp : (runCancel k (fastRun busy index ts n)).2 ≠ .pending) (pre : List Act) (t : Nat) (post : List Act)
+    (e : (runCancel k (fastRun busy index ts n)).1 = pre ++ .setState t ms_OPERATIONAL :: post) :
+    .setState t ms_SAFE_OPERATIONAL ∈ post := by
+  obtain ⟨h1, h2⟩ := fastRun_trace k busy index ts n 0 hp
+  refine opCovered_spec _ ?_ pre t post e
+  simp only [runCancel]
+  rw [h1, List.append_assoc, List.append_assoc]
+  rw [opCovered_neutral_left fun x hx => (fastPre_neutral busy index x hx).1]
+  rw [opCovered_neutral_left (a := [Act.progSet index, Act.closeFd, Act.groupSet index]) (by simp [opOf])]
+  exact opCovered_neutral_right (fastBody_op k ts n 0 h2).1 (by simp [opOf])
+
+/-- **FMMUs freed (fast group)** -/
+theorem fmmu_freed_fast (k : Option Nat) (busy : List Nat) (index : Nat) (ts : List Term) (n : Nat)
+    (hp : (runCancel k (fastRun busy index ts n)).2 ≠ .pending) :
+    tabAfter slotCls (runCancel k (fastRun busy index ts n)).1 [] = [] := by
+  obtain ⟨h1, h2⟩ := fastRun_trace k busy index ts n 0 hp
+  apply shrinks_empty
+  simp only [runCancel]
+  rw [h1]
+  refine shrinks_append slotCls (shrinks_append slotCls (shrinks_append slotCls ?_ ?_) (fastBody_op k ts n 0 h2).2) ?_
+  · exact shrinks_neutral slotCls fun x hx => (fastPre_neutral busy index x hx).2.1
+  · exact shrinks_neutral slotCls (by simp [slotCls])
+  · exact shrinks_neutral slotCls (by simp [slotCls])
+
+/-- **program unregistered (fast group)**: whenever the task is over, the program-table entry written by
+`register_sync_group` has been deleted again and so has the `sync_groups` entry (replay of the trace from
+empty tables gives empty tables; both entries were really made) -/
+theorem program_unregistered (k : Option Nat) (busy : List Nat) (index : Nat) (ts : List Term) (n : Nat)
+    (hp : (runCancel k (fastRun busy index ts n)).2 ≠ .pending) :
+    tabAfter progCls (runCancel k (fastRun busy index ts n)).1 [] = [] ∧
+    tabAfter groupCls (runCancel k (fastRun busy index ts n)).1 [] = [] ∧
+    .progSet index ∈ (runCancel k (fastRun busy index ts n)).1 ∧
+    .groupSet index ∈ (runCancel k (fastRun busy index ts n)).1 := by
+  obtain ⟨h1, _⟩ := fastRun_trace k busy index ts n 0 hp
+  have hB := fastBody_tables k ts n 0
+  simp only [runCancel]
+  rw [h1]
+  generalize (run k (fastBody ts n) 0).trace = B at hB
+  refine ⟨?_, ?_, by simp, by simp⟩
+  · apply shrinks_empty
+    have e : fastPre busy index ++ [Act.progSet index, Act.closeFd, Act.groupSet index] ++ B ++
+        [Act.progDel index, Act.groupDel index] =
+        fastPre busy index ++ ((Act.progSet index :: (([Act.closeFd, Act.groupSet index] ++ B) ++ [Act.progDel index]))
+          ++ [Act.groupDel index]) := by simp
+    rw [e]
+    refine shrinks_append progCls (shrinks_neutral progCls fun x hx => (fastPre_neutral busy index x hx).2.2.1) ?_
+    refine shrinks_append progCls ?_ (shrinks_neutral progCls (by simp [progCls]))
+    refine shrinks_bracket progCls (x := index) rfl rfl ?_
+    exact shrinks_append progCls (shrinks_neutral progCls (by simp [progCls]))
+      (shrinks_neutral progCls fun x hx => (hB x hx).1)
+  · apply shrinks_empty
+    have e : fastPre busy index ++ [Act.progSet index, Act.closeFd, Act.groupSet index] ++ B ++
+        [Act.progDel index, Act.groupDel index] =
+        (fastPre busy index ++ [Act.progSet index, Act.closeFd]) ++
+          (Act.groupSet index :: ((B ++ [Act.progDel index]) ++ [Act.groupDel index])) := by simp
+    rw [e]
+    refine shrinks_append groupCls ?_ ?_
+    · refine shrinks_append groupCls (shrinks_neutral groupCls fun x hx => (fastPre_neutral busy index x hx).2.2.2) ?_
+      exact shrinks_neutral groupCls (by simp [groupCls])
+    · refine shrinks_bracket groupCls (x := index) rfl rfl ?_
+      exact shrinks_append groupCls (shrinks_neutral groupCls fun x hx => (hB x hx).2)
+        (shrinks_neutral groupCls (by simp [groupCls]))
+
+/-! ### the process group: `wait_for_process` -/
+
+/-- what a cancelled `wait_for_process` did: told the child to stop, waited again, saw it terminate -/
+def procCancelledTrace : List Act :=
+  [.pidfdOpen, .waitChild, .setRunning false, .removeReader, .waitChild, .childSeen, .removeReader]
+
+theorem proc_cancel_at_wait (selfExit : Bool) (n : Nat) :
+    runCancel (some 0) (procRun selfExit (n + 2)) = (procCancelledTrace, .raised .cancelled) := by
+  cases selfExit <;>
+    simp [runCancel, procRun, waitLoop, waitIter, run, runAwaits, Res.andThen, Res.finallyDo, isCancelled,
+      procCancelledTrace]
+
+theorem proc_not_first (k : Option Nat) (hk : k ≠ some 0) (selfExit : Bool) (n : Nat) :
+    runCancel k (procRun selfExit (n + 1)) =
+      if selfExit then ([.pidfdOpen, .waitChild, .childSeen, .removeReader], .returned)
+      else ([.pidfdOpen, .waitChild], .pending) := by
+  cases selfExit <;>
+    simp [runCancel, procRun, waitLoop, waitIter, run, runAwaits, Res.andThen, Res.finallyDo, hk]
+
+/-- **ends cancelled (process group)**: cancelled at its (only) await, the task ends with CancelledError;
+any other index is never reached and the run is the uncancelled one -/
+theorem ends_cancelled_proc (k : Option Nat) (selfExit : Bool) (n : Nat) (hn : 2 ≤ n) :
+    (runCancel k (procRun selfExit n)).2 = .raised .cancelled ∨
+    runCancel k (procRun selfExit n) = runCancel none (procRun selfExit n) := by
+  obtain ⟨m, rfl⟩ : ∃ m, n = m + 2 := ⟨n - 2, by omega⟩
+  by_cases hk : k = some 0
+  · left; rw [hk, proc_cancel_at_wait]
+  · right
+    rw [proc_not_first k hk selfExit (m + 1), proc_not_first none (by simp) selfExit (m + 1)]
+
+/-- **child stopped (process group)**: whenever the task ends with CancelledError, `runningValue` was
+cleared, the task waited for the child again and observed its termination before re-raising, and the
+reader was removed -/
+theorem child_stopped (k : Option Nat) (selfExit : Bool) (n : Nat)
+    (h : (runCancel k (procRun selfExit n)).2 = .raised .cancelled) :
+    (runCancel k (procRun selfExit n)).1 = procCancelledTrace := by
+  by_cases hk : k = some 0
+  · subst hk
+    match n with
+    | 0 => simp [runCancel, procRun, waitLoop, run, runLoop, Res.andThen] at h
+    | 1 =>
+      cases selfExit <;>
+        simp [runCancel, procRun, waitLoop, waitIter, run, runLoop, runAwaits, Res.andThen, Res.finallyDo,
+          isCancelled] at h
+    | m + 2 => rw [proc_cancel_at_wait]
+  · match n with
+    | 0 => simp [runCancel, procRun, waitLoop, run, runLoop, Res.andThen] at h
+    | m + 1 =>
+      rw [proc_not_first k hk] at h
+      cases selfExit <;> simp at h
+
+/-! ### non-vacuity: concrete runs that exercise the hypotheses -/
+
+/-- a read-write terminal with both mappings starting in PRE-OP, a read-only one with an IN mapping in INIT -/
+def exTerms : List Term := [⟨1, true, some 1, some 2, 2⟩, ⟨2, false, none, some 1, 1⟩]
+
+-- cancelled while the OPERATIONAL request is in flight (await 11): over, cancelled, OP then SAFE-OP, slots set and cleared
+example : runCancel (some 11) (slowRun exTerms 3) =
+    ([.slot 1 1 true, .fmmuOn 1 1, .slot 1 2 true, .fmmuOn 1 2, .slot 2 1 true, .fmmuOn 2 1,
+      .getState 1, .getState 2, .setState 1 4, .setState 2 2, .getState 1, .getState 2, .setState 2 4, .getState 2,
+      .send, .setState 1 8, .setState 1 4, .slot 2 1 false, .slot 1 2 false, .slot 1 1 false],
+     .raised .cancelled) := by decide
+-- cancelled in the second cycle
+example : (runCancel (some 13) (slowRun exTerms 3)).2 = .raised .cancelled ∧
+    Act.setState 1 ms_OPERATIONAL ∈ (runCancel (some 13) (slowRun exTerms 3)).1 := by decide
+-- never cancelled: still running after the fuel, terminal 1 in OP
+example : (runCancel none (slowRun exTerms 2)).2 = .pending ∧ awaitCount none (slowRun exTerms 2) = 16 := by decide
+example : runCancel (some 7) (fastRun [5] 7 [⟨1, true, some 1, none, 4⟩] 2) =
+    ([.load, .lookup 5, .lookup 7, .progSet 7, .closeFd, .groupSet 7, .send, .sleep, .send, .sleep,
+      .slot 1 1 true, .fmmuOn 1 1, .getState 1, .send, .setState 1 8, .recv, .sleep, .send, .recv,
+      .setState 1 4, .slot 1 1 false, .progDel 7, .groupDel 7], .raised .cancelled) := by decide
+example : runCancel (some 0) (procRun false 5) = (procCancelledTrace, .raised .cancelled) := by decide
+example : slotsOf 3 true true = some (some 1, some 2) ∧ slotsOf 2 true true = some (some 1, some 0) ∧
+    slotsOf 1 true false = some (some 0, none) := by decide
+
+/-! ### the two defects already fixed in /repo, as the model sees them
+
+Before `fix: terminals stayed OPERATIONAL if a sync group was cancelled early` the OPERATIONAL requests were
+made before the `try`; the model of that code violates the clause on a concrete cancellation index. -/
+def slowCoreUnfixed (ts : List Term) (n : Nat) : Coro Act :=
+  .seq (.gather (ts.map toOp))
+    (.seq (.act .send)
+      (.seq (.gather ((rwOf ts).map fun p => [.setState p ms_OPERATIONAL]))
+        (.tryFinally (.loop n cycle) (safeFin ts))))
+
+example : (runCancel (some 11) (mapFmmu (mappings exTerms) (slowCoreUnfixed exTerms 3))).2 = .raised .cancelled ∧
+    opCovered (runCancel (some 11) (mapFmmu (mappings exTerms) (slowCoreUnfixed exTerms 3))).1 = false := by decide
+
+/-- before `fix: cancelling a ProcessSyncGroup ended with UnboundLocalError`: `except CancelledError as error`
+unbinds `error`, so the `else:` branch of the next pass raises UnboundLocalError (error 1) -/
+def waitIterUnfixed : Coro Act :=
+  .tryFinally
+    (.tryExcept (.seq (.await .waitChild) (.act .childSeen)) isCancelled (.act (.setRunning false)) (.raise (.error 1)))
+    (.act .removeReader)
+
+example : (runCancel (some 0) (.seq (.act .pidfdOpen) (.seq (waitIter false false) waitIterUnfixed))).2 = .raised (.error 1) := by
+  decide
 
 end Ebv.C24
